@@ -253,7 +253,7 @@ def run_input(arg):
                 oc.inc("cfg_jq")
             nseeds = 10 if tier == "quick" else 40
             for s in range(nseeds):
-                mode = s % 4
+                mode = s % 6          # 0-3: delays in the workers; 4, 5: the submitting thread stalls after handing an item over
                 env = {"VERIF_DELAY": "%d:%d" % (mode, core.SEED * 100 + s), "VERIF_SPURIOUS": "%d:%d" % (r.choice([5, 20, 50]), s)}
                 j = r.choice([2, 3, 4, 8])
                 q = r.choice([None, 1, 2, 4])
